@@ -6,10 +6,10 @@ import json, os, subprocess
 V = "/verif"
 PBT = "property-based testing (proptest via vcore): "
 META = {
- "C01": dict(engine="vcore+drvlab", technique=PBT + "generated submit/feed/poll/cancel/drop programs on the raw Proactor of both drivers; history invariant over the compio_verif hook trace (op alloc/submit/raw CQE/pool done/ring closed/free), tracked buffers with quarantine canaries, tracked descriptors",
+ "C01": dict(engine="vcore+drvlab", technique=PBT + "generated submit/feed/poll/cancel/drop programs on the raw Proactor of both drivers; history invariant over the compio_verif hook trace (op alloc/submit/raw CQE/pool done/ring closed/free), tracked buffers with quarantine canaries, tracked descriptors; generated buffer-pool teardown cases with armed buffer-select receives and data injected at the first buffer hand-back (part pool)",
   text="Seeded random exploration of API-step interleavings of submit / OS completion / key drop / token cancel / handle drop / driver drop for recv, pipe read, accept, multishot accept, poll-once, gated thread-pool jobs, read-at and zero-copy send, on io_uring and polling, SQ capacities 1..1024. The oracle is an invariant over the complete event history of each case; no exhaustiveness.",
   note="Drop points are API-step boundaries (driver lab) resp. harness steps between runtime ticks (runtime lab: future, task, token and runtime drops, zero-copy notification order), not arbitrary instructions; kernel trusted; user-space memory errors that do not reach the hook trace need the ASan step (thorough); a pool job outliving its driver leaks by design (listed known finding, shape drained before a drop)."),
- "C02": dict(engine="vcore+drvlab", technique=PBT + "generated mixes of concurrently pending operations with harness-chosen readiness order; validity-predicate oracle over position-coded streams (partition of a prefix), own-buffer round trip, accept-exactly-once, bounded-progress liveness, counting wakers",
+ "C02": dict(engine="vcore+drvlab", technique=PBT + "generated mixes of concurrently pending operations with harness-chosen readiness order; validity-predicate oracle over position-coded streams (partition of a prefix), own-buffer round trip, accept-exactly-once, bounded-progress liveness, counting wakers; thread-pool jobs finishing while the driver sleeps in a poll with a readiness event (JobRace) judged by a no-sleep-on-deliverable-completion rule",
   text="Seeded random programs with up to 14 concurrently pending operations over shared and distinct descriptors, capacities down to 1, both drivers; every final outcome is compared with what the harness fed (data, count, EOF, error) and every operation whose awaited event was supplied must complete within a poll bound.",
   note="Kernel-internal completion order between reads pending on one descriptor is not controlled (hence the partition predicate); liveness = 60 polls of <=100 ms (300 for pool jobs); managed-buffer and multishot-read kinds are covered by C07."),
  "C03": dict(engine="vcore+shuttle", technique="property-based testing of schedules: proptest-generated wake programs x shuttle random/PCT schedules of the real executor and the real AwakeFlag text (c03a); generated real-thread wake programs on both drivers and the compat external loop judged by the rescue rule (c03b)",
@@ -18,7 +18,7 @@ META = {
  "C04": dict(engine="vcore+shuttle", technique="model-based property testing: generated single-thread executor programs in lock-step with a reference model (c04a); generated cross-thread handle/waker/teardown programs x shuttle schedules (c04b); ASan build of c04a in the thorough tier",
   text="4x10^5 generated spawn/tick/wake/cancel/detach/drop/panic programs per quick run against a reference model with instrumented futures, and sampled SC interleavings of cross-thread JoinHandle and waker use against exactly-once counters.",
   note="Three cross-thread defects remain listed as known findings (teardown use-after-free x2, remote handle drop never taking effect) and their shapes are excluded from the generator by construction; weak-memory reorderings and UnsafeCell races are out of reach of shuttle."),
- "C05": dict(engine="vcore+drvlab", technique=PBT + "generated cancel-vs-readiness-vs-completion programs at the raw Proactor (key drop, cancel token, double cancel, cancel after completion) and at the runtime level (with_cancel incl. personality nesting and pre-fired tokens, timeout, dropped future) with neighbours on the same descriptor; promptness judged by a poll/step bound without supplying the event, honesty by the data oracle, the hook count of operations still alive in the driver",
+ "C05": dict(engine="vcore+drvlab", technique=PBT + "generated cancel-vs-readiness-vs-completion programs at the raw Proactor (key drop, cancel token, double cancel, cancel after completion) and at the runtime level (with_cancel incl. personality nesting and pre-fired tokens, timeout, dropped future) with neighbours on the same descriptor; busy rounds (a neighbour descriptor ready in every round) before idle ones; promptness judged by a poll/step bound without supplying the event, honesty by the data oracle, the hook count of operations still alive in the driver",
   text="Seeded random exploration of subsets of pending interruptible operations cancelled by key drop or token at generated moments on both drivers and all capacities; cancelled operations must finish within 12 polls although their event never happens, with a cancellation error or genuine data, neighbours must complete with exactly their data.",
   note="Thread-pool operations are excluded as documented; timeouts are judged only after their deadline has clearly passed."),
  "C06": dict(engine="vcore+shuttle", technique="property-based testing: generated clone/drop/op/close programs with a /proc/self/fd oracle on both drivers (c06a) and proptest cases x shuttle schedules of the unmodified fd.rs release protocol (c06b)",
@@ -51,13 +51,13 @@ META = {
  "C15": dict(engine="vcore", technique=PBT + "generated transport schedules (per-call byte limits, pending-then-wake, flush-gated visibility) of an in-memory duplex under both TLS back-ends, and a throttling proxy under WebSocket; stream equality, exact dead-lock detection and step bound",
   text="1 200 generated in-memory TLS conversations (native-tls and rustls x client/server roles) and 400 WebSocket conversations over throttled socketpairs (plain and TLS, both drivers) per quick run; handshake, byte/message equality, clean close, no dead-lock (exact: both sides pending, no waker fired, nothing scheduled) and no spin.",
   note="Fixed test certificates under fixtures/tls; the rustls handshake-flush defect of futures-rustls is a listed known finding and its shape is avoided by construction; OS-owned interleavings of the WS half and third-party protocol internals are not enumerated."),
- "C16": dict(engine="vcore", technique=PBT + "generated QUIC transport configurations, stream/datagram programs, reader pacing and close points over loopback endpoints; per-stream byte equality, datagram subset/integrity, every pending future resolved after close (rescue rule)",
+ "C16": dict(engine="vcore", technique=PBT + "generated QUIC transport configurations, stream/datagram programs, reader pacing and close points over loopback endpoints; per-stream byte equality, datagram subset/integrity, every pending future resolved after close (rescue rule); generated groups of blocked open_*_wait callers released by one stream-limit grant (part openers)",
   text="~100 generated loopback scenarios per quick run (window and stream-limit configurations, concurrent uni/bidi streams with generated write/read chunkings and pacing, datagrams, close before/during/after by either side via connection or endpoint) with every future polled by the harness; after close every pending future of nine kinds must have been woken.",
   note="Schedules belong to the OS; most protocol logic is quinn-proto (trusted), the check targets compio-quic's waker bookkeeping."),
  "C17": dict(engine="vcore", technique=PBT + "generated dispatch programs on real threads (direct dispatch from 1-6 threads and 1-3 runtimes sharing a pool); exact per-job execution counters, running-jobs gauge, hand-back identity, panic delivery",
   text="~650 generated programs per quick run with limits 1-8, idle timeouts 1-50 ms, bursts above the limit and idle gaps.",
   note="Real OS threads: cases are seeded, schedules belong to the OS, replay repeats the saved case 30x; hangs are exact only where /proc shows no worker alive, otherwise inconclusive."),
- "C18": dict(engine="vcore", technique=PBT + "generated dispatcher programs on real threads; exact start counters per closure, per-worker overlap gauges, tagged results, Canceled-not-hang after join, thread-exit and panic propagation checks",
+ "C18": dict(engine="vcore", technique=PBT + "generated dispatcher programs on real threads; exact start counters per closure, per-worker overlap gauges, tagged results, Canceled-not-hang after join, thread-exit and panic propagation checks; generated subsets of workers killed by an executor panic while the others are busy (part worker-death)",
   text="~900 generated programs per quick run (workers 1-4, concurrent/sequential, 1-6 dispatching threads x 1-40 tasks, yield/sleep/pipe/panic bodies, three join points).",
   note="Schedules belong to the OS; hangs are watchdog-inconclusive; a join deadlock with thread_pool_limit(1) and pool-using workers is documented in notes/C18.md and kept out of the generator."),
  "C19": dict(engine="vcore", technique=PBT + "generated actor programs on a real cluster (spawn, send, call, stop, handler failure, supervisor respawn, process-group traffic from 1-4 threads); per-actor logs, overlap gauge, lifecycle order, registry and routing models, hand-polled call futures",
